@@ -92,10 +92,27 @@ type obs struct {
 	alloc uint64
 }
 
+// Panics counts decoder panics (reported in the stream's tags).
+var Panics int
+
 func observe(input []byte, f func(r io.Reader) bool) obs {
 	rr := &recReader{data: input, reads: make([]uint64, 0, 64)}
 	ok := false
-	a := measure(func() { ok = f(rr) })
+	panicked := false
+	a := measure(func() {
+		defer func() {
+			if recover() != nil {
+				panicked = true
+			}
+		}()
+		ok = f(rr)
+	})
+	if panicked {
+		// a decoder that panics on its input is recorded as an accepted value with an absurd allocation volume: no
+		// bound of the property holds for it, so the oracle reports the case (code 2) with the input as the replay
+		Panics++
+		return obs{true, uint64(rr.pos), rr.reads, 1 << 62}
+	}
 	return obs{ok, uint64(rr.pos), rr.reads, a}
 }
 
